@@ -538,14 +538,14 @@ theorem c05_wfspec : WFSpec c05P where
   srcNotProd := c05_wf2.srcNotProd
 
 
-theorem f20_wfspec : WFSpec f20P where
-  find := f20_wf.find
-  nodup := f20_wf.nodup
-  disj := f20_wf.disj
-  honest := f20_wf.honest
-  noPersist := f20_wf.noPersist
-  uniq := by intro t ht u hu p _ _; simp [f20P] at ht hu; rw [ht, hu]
-  srcNotProd := by intro t ht u hu; simp [f20P] at ht hu; subst ht; subst hu; decide
+theorem f50_wfspec : WFSpec f50P where
+  find := f50_wf.find
+  nodup := f50_wf.nodup
+  disj := f50_wf.disj
+  honest := f50_wf.honest
+  noPersist := f50_wf.noPersist
+  uniq := by intro t ht u hu p _ _; simp [f50P] at ht hu; rw [ht, hu]
+  srcNotProd := by intro t ht u hu; simp [f50P] at ht hu; subst ht; subst hu; decide
 
 
 /-! ### tasks that completed before the kill are not executed again -/
